@@ -154,21 +154,23 @@ def opWC (args obs : List String) : Option DecOut :=
       (if maxw ≤ 1 then [] else [s!"C16 {maxw} goroutines inside the underlying WriteMessage at once"]) ++
       (if maxr ≤ 1 then [] else [s!"C16 {maxr} goroutines inside the underlying ReadMessage at once"])
     -- ---- expectation derived from the model (deterministic parts of the scenario) ----
-    let listen := listen || scen == "listeners" || scen == "handler"
-    let internalWins := listen && (peer == "first1000" || peer == "first1001" || peer == "sever")
+    let listen := listen || scen == "listeners" || scen == "handler" || scen == "errwriters"
+    -- with the default ReadHandler a peer closure / transport error closes the connection from inside
+    let internalWins := scen != "errwriters" && listen && (peer == "first1000" || peer == "first1001" || peer == "sever")
     let winner :=
       if peer == "echo" then "nil"
       else if peer == "silent" then (if listen then "deadline" else "nil")
       else if peer == "writefail" then "other"
       else "nil"
-    let nClosers := if scen == "writers" then 2 else if scen == "relisten" || scen == "listeners" || scen == "handler" then 1 else n
+    let nClosers := if scen == "writers" then 2 else if scen == "relisten" || scen == "listeners" || scen == "handler" || scen == "errwriters" then 1 else n
     let wantRes : List String :=
       if scen == "relisten" then [if peer == "silent" then "deadline" else "nil"]
       else if internalWins then List.replicate nClosers "multiple"
       else (List.replicate (nClosers - 1) "multiple") ++ [winner]
     let wantFrames := if peer == "writefail" then 0 else if peer == "sever" && listen then 0 else 1
     let wantListen :=
-      if scen == "listeners" then "-"
+      if scen == "errwriters" then (if peer == "sever" then "neterr" else "nil")
+      else if scen == "listeners" then "-"
       else if scen == "handler" then (if n ≥ 1 then "other" else "nil")
       else if scen == "relisten" then (if n == 0 then "nil" else "-")
       else if !listen then "-"
